@@ -9,6 +9,7 @@ pub fn dispatch(fields: &[&str]) -> String {
         cmd_macro::dispatch,
         cmd_tree::dispatch,
         cmd_prover::dispatch,
+        cmd_oracle::dispatch,
     ] {
         if let Some(a) = d(fields) {
             return a;
